@@ -833,18 +833,20 @@ Theorem dist_inner_product_same_everywhere (xs ys : list vec) :
   repeat (vsum (map2 inner_product_serial xs ys)) (length (map2 inner_product_serial xs ys)).
 Proof. unfold dist_inner_product, allreduce_sum. apply map_const. Qed.
 
+Lemma map2_triple_repeat (a b c : nat) : forall n1 n2 n3,
+  map2 (fun (rc : nat * nat) z => (fst rc, snd rc, z)) (combine (repeat a n1) (repeat b n2)) (repeat c n3)
+  = repeat (a, b, c) (Nat.min (Nat.min n1 n2) n3).
+Proof. induction n1 as [|n1 IH]; intros [|n2] [|n3]; simpl; try reflexivity. f_equal. apply IH. Qed.
+
 Theorem dist_glob_sizes_same_everywhere (D : dmat S) i j d :
   i < length (dist_glob_sizes D) -> j < length (dist_glob_sizes D) ->
   nth i (dist_glob_sizes D) d = nth j (dist_glob_sizes D) d.
 Proof.
-  unfold dist_glob_sizes, allreduce_nat. rewrite !map_const.
-  set (a := psum _). set (b := psum _). set (c := psum _).
-  set (n1 := length _). set (n2 := length _). set (n3 := length _).
-  assert (G : forall n1 n2 n3, map2 (fun (rc : nat * nat) z => (fst rc, snd rc, z)) (combine (repeat a n1) (repeat b n2)) (repeat c n3)
-              = repeat (a, b, c) (Nat.min (Nat.min n1 n2) n3)).
-  { clear. induction n1 as [|n1 IH]; intros [|n2] [|n3]; simpl; try reflexivity. f_equal. apply IH. }
-  rewrite G. intros Hi Hj. rewrite repeat_length in Hi, Hj.
-  rewrite !(nth_indep _ d (a, b, c)) by (rewrite repeat_length; assumption).
+  unfold dist_glob_sizes, allreduce_nat. rewrite !map_const, map2_triple_repeat.
+  intros Hi Hj. rewrite repeat_length in Hi, Hj.
+  rewrite !(nth_indep _ d (psum (map (fun M => nrows (rm_loc M)) (dm_ranks D)),
+                           psum (map (fun M => ncols (rm_loc M)) (dm_ranks D)),
+                           psum (map rank_nnz (dm_ranks D)))) by (rewrite repeat_length; assumption).
   rewrite !nth_repeat. reflexivity.
 Qed.
 End CollectiveAny.
@@ -895,7 +897,7 @@ Theorem dist_inner_product_partition (parts : list nat) (x y : vec) :
   dist_inner_product (chunks parts x) (chunks parts y) = repeat (inner_product_serial x y) (length parts).
 Proof.
   intros H1 H2. rewrite dist_inner_product_serial by (apply Forall2_chunks; exact H1).
-  rewrite !concat_chunks by lia. rewrite chunks_length. reflexivity.
+  rewrite !concat_chunks by lia. f_equal. apply chunks_length.
 Qed.
 End CollectiveRing.
 
